@@ -108,6 +108,42 @@ type Input struct {
 	// auctions run before this one on the SAME strategy instance and blockrelay service (their
 	// strategy parameters and builder configurations are this auction's: fixed at construction)
 	Before []Input `json:"before,omitempty"`
+	// what happens on the same blockrelay service AFTER the operations of the mode (auction / query only)
+	Late *LateIn `json:"late,omitempty"`
+}
+
+// LateIn: the beacon node asks (again) for the bid of the auction's slot / parent / proposer after the
+// auction has closed -- Queries BuilderBid calls, the first Wait ms after the mode's operations have
+// returned, the following ones Between ms apart -- while the relays answer differently from what they
+// answered during the auction: Scripts[i] is what relay i answers to the requests that these later
+// operations make (its k-th such request), typically a bid that was not there before.  Other: an
+// AuctionBlock for ANOTHER key (other parent; and the next slot / another proposer) runs first, at
+// the instant of the first query.
+type LateIn struct {
+	Wait    int64      `json:"wait,omitempty"`
+	Between int64      `json:"between,omitempty"`
+	Queries int        `json:"queries"`
+	Other   string     `json:"other,omitempty"` // "" | parent | parent+slot | parent+proposer
+	Scripts [][]RespIn `json:"scripts"`
+}
+
+// lateUID names the bid of the k-th late answer of a relay.
+func lateUID(relay, call int) uint64 { return uint64(relay)*1000 + 500 + uint64(call) + 1 }
+
+// which operation a request to a relay belongs to: carried by the context of the operation
+type phaseKey struct{}
+
+const (
+	phaseAuction = 0 // the operations of the mode
+	phaseLate    = 1 // the later BuilderBid calls for the same key
+	phaseOther   = 2 // the auction for another key in between
+)
+
+func phaseOf(ctx context.Context) int {
+	if v, ok := ctx.Value(phaseKey{}).(int); ok {
+		return v
+	}
+	return phaseAuction
 }
 
 func (in *Input) cutoff() int64 {
@@ -267,7 +303,10 @@ type call struct {
 type callLog struct {
 	mu    sync.Mutex
 	calls []call
+	late  []call // requests made by the later BuilderBid calls: T = instant of ARRIVAL at the relay, answered or not
 }
+
+func (l *callLog) addLate(c call) { l.mu.Lock(); l.late = append(l.late, c); l.mu.Unlock() }
 
 func (l *callLog) add(c call) { l.mu.Lock(); l.calls = append(l.calls, c); l.mu.Unlock() }
 
@@ -282,17 +321,22 @@ type relayMock struct {
 	addr      string
 	adv       *phase0.BLSPubKey
 	script    []scripted
+	late      []scripted // answers to the requests of the later operations (phaseLate, phaseOther)
 	ignoreCtx bool
 	start     time.Time
 	log       *callLog
 	mu        sync.Mutex
 	n         int
+	nLate     int
 }
 
 func (m *relayMock) Name() string              { return fmt.Sprintf("relay-%d", m.idx) }
 func (m *relayMock) Address() string           { return m.addr }
 func (m *relayMock) Pubkey() *phase0.BLSPubKey { return m.adv }
 func (m *relayMock) answer(ctx context.Context) (*builderapi.Response[*builderspec.VersionedSignedBuilderBid], error) {
+	if ph := phaseOf(ctx); ph != phaseAuction {
+		return m.answerLate(ctx, ph)
+	}
 	m.mu.Lock()
 	k := m.n
 	m.n++
@@ -317,6 +361,39 @@ func (m *relayMock) answer(ctx context.Context) (*builderapi.Response[*buildersp
 		}
 	}
 	m.log.add(call{T: time.Since(m.start).Milliseconds(), Relay: m.idx, Call: k})
+	return respond(s)
+}
+
+// answerLate: a request made by one of the later operations; those of the later BuilderBid calls are
+// logged on arrival (the relay was asked, whatever becomes of the request).
+func (m *relayMock) answerLate(ctx context.Context, phase int) (*builderapi.Response[*builderspec.VersionedSignedBuilderBid], error) {
+	m.mu.Lock()
+	k := m.nLate
+	m.nLate++
+	m.mu.Unlock()
+	if phase == phaseLate {
+		m.log.addLate(call{T: time.Since(m.start).Milliseconds(), Relay: m.idx, Call: k})
+	}
+	if k >= len(m.late) || m.late[k].kind == "hang" {
+		<-ctx.Done()
+		return nil, ctx.Err()
+	}
+	s := m.late[k]
+	timer := time.NewTimer(s.lat)
+	if m.ignoreCtx {
+		<-timer.C
+	} else {
+		select {
+		case <-timer.C:
+		case <-ctx.Done():
+			timer.Stop()
+			return nil, ctx.Err()
+		}
+	}
+	return respond(s)
+}
+
+func respond(s scripted) (*builderapi.Response[*builderspec.VersionedSignedBuilderBid], error) {
 	switch s.kind {
 	case "err":
 		return nil, errors.New("scripted relay failure")
@@ -389,6 +466,11 @@ type Obs struct {
 	Calls      []call      `json:"calls"`
 	Stuck      bool        `json:"stuck,omitempty"` // goroutines of the call were left blocked for good
 	Note       string      `json:"note,omitempty"`
+	// the later BuilderBid calls: their instants (ms since the auction started), their answers, and the
+	// requests they made to relays (relay-side log: instant of arrival, relay, number)
+	LateAt     []int64   `json:"late_at,omitempty"`
+	LateServed []*uint64 `json:"late_served,omitempty"`
+	LateReqs   []call    `json:"late_requests,omitempty"`
 }
 
 const auctionSlot = 12345
@@ -460,7 +542,14 @@ func runSeq(t *testing.T, rounds []Input) (obss []Obs) {
 func finishCalls(obs *Obs, lg *callLog) {
 	lg.mu.Lock()
 	obs.Calls = append(obs.Calls[:0], lg.calls...)
+	obs.LateReqs = append(obs.LateReqs[:0], lg.late...)
 	lg.mu.Unlock()
+	sort.SliceStable(obs.LateReqs, func(i, j int) bool {
+		if obs.LateReqs[i].T != obs.LateReqs[j].T {
+			return obs.LateReqs[i].T < obs.LateReqs[j].T
+		}
+		return obs.LateReqs[i].Relay < obs.LateReqs[j].Relay
+	})
 	sort.SliceStable(obs.Calls, func(i, j int) bool {
 		if obs.Calls[i].T != obs.Calls[j].T {
 			return obs.Calls[i].T < obs.Calls[j].T
@@ -550,6 +639,17 @@ func runRound(t *testing.T, root context.Context, in Input, obs *Obs, lg *callLo
 			}
 			m.script = append(m.script, s)
 		}
+		if in.Late != nil && in.Mode != "strategy" && i < len(in.Late.Scripts) {
+			for k := range in.Late.Scripts[i] {
+				ls := &in.Late.Scripts[i][k]
+				s := scripted{lat: time.Duration(ls.Lat) * time.Millisecond, kind: ls.Kind}
+				if s.kind == "bid" {
+					s.bid = makeBid(ls.Bid, chainTime.StartOfSlot(slot).Unix(), domain)
+					bidUID[s.bid] = lateUID(i, k)
+				}
+				m.late = append(m.late, s)
+			}
+		}
 		addrIdx[m.addr] = uint64(i)
 		switch r.Kind {
 		case "full":
@@ -581,19 +681,20 @@ func runRound(t *testing.T, root context.Context, in Input, obs *Obs, lg *callLo
 	}
 	var res *blockauctioneer.Results
 	var err error
+	served := &obs.Served
 	serve := func(bid *builderspec.VersionedSignedBuilderBid, err error) {
 		if err != nil {
 			obs.Note += "BuilderBid error: " + err.Error() + "; "
 		}
 		if bid == nil {
-			obs.Served = append(obs.Served, nil)
+			*served = append(*served, nil)
 			return
 		}
 		u, ok := bidUID[bid]
 		if !ok {
 			u = 999999999 // a bid that no relay supplied in this auction
 		}
-		obs.Served = append(obs.Served, &u)
+		*served = append(*served, &u)
 	}
 	// a call that never returns (every goroutine of the bubble blocked for good) would end the
 	// whole test binary with synctest's deadlock panic: after a day of fake time release the
@@ -633,7 +734,52 @@ func runRound(t *testing.T, root context.Context, in Input, obs *Obs, lg *callLo
 			serve(svc.BuilderBid(ctx, slot, parent, pubkey))
 		}
 	}()
+	// afterwards: the beacon node asks for the bid of this slot / parent / proposer -- the auction is
+	// over, the relays may have other bids by now
+	lateCancel := func() {}
+	if in.Late != nil && in.Mode != "strategy" && !obs.Panic {
+		var lateCtx, otherCtx context.Context
+		var c1, c2 context.CancelFunc
+		lateCtx, c1 = context.WithCancel(context.WithValue(root, phaseKey{}, phaseLate))
+		otherCtx, c2 = context.WithCancel(context.WithValue(root, phaseKey{}, phaseOther))
+		lateCancel = func() { c1(); c2() }
+		lateDog := time.AfterFunc(24*time.Hour, func() {
+			obs.Note += "watchdog: a later call still running after 24h of fake time; "
+			lateCancel()
+		})
+		func() {
+			defer lateDog.Stop()
+			defer func() {
+				if r := recover(); r != nil {
+					obs.Panic = true
+					obs.PanicMsg = "later call: " + strings.SplitN(fmt.Sprint(r), "\n", 2)[0]
+				}
+			}()
+			served = &obs.LateServed
+			time.Sleep(time.Duration(in.Late.Wait) * time.Millisecond)
+			if in.Late.Other != "" {
+				oSlot, oParent, oPubkey := slot, phase0.Hash32(fill32(1, 5000+parentID)), pubkey
+				switch in.Late.Other {
+				case "parent+slot":
+					oSlot++
+				case "parent+proposer":
+					oPubkey[2] = 0x77
+				}
+				if _, err := svc.AuctionBlock(otherCtx, oSlot, oParent, oPubkey); err != nil {
+					obs.Note += "AuctionBlock (other key) error: " + err.Error() + "; "
+				}
+			}
+			for q := 0; q < in.Late.Queries; q++ {
+				if q > 0 {
+					time.Sleep(time.Duration(in.Late.Between) * time.Millisecond)
+				}
+				obs.LateAt = append(obs.LateAt, time.Since(start).Milliseconds())
+				serve(svc.BuilderBid(lateCtx, slot, parent, pubkey))
+			}
+		}()
+	}
 	cancel() // releases the mocks that never answer
+	lateCancel()
 	// let every relay goroutine run to its end (fake time stops when the bubble's function returns)
 	time.Sleep(time.Hour)
 	synctest.Wait()
@@ -692,8 +838,10 @@ func optZ(s *string) string {
 	return Some(bigZ(bigOf(*s)))
 }
 
-func bidTerm(relay, k int, b *BidIn) string {
-	return Record("b_uid", N(uid(relay, k)), "b_value", bigN(b.Value), "b_builder", N(b.Builder),
+func bidTerm(relay, k int, b *BidIn) string { return bidTermUID(uid(relay, k), b) }
+
+func bidTermUID(u uint64, b *BidIn) string {
+	return Record("b_uid", N(u), "b_value", bigN(b.Value), "b_builder", N(b.Builder),
 		"b_zero_recipient", Bool(b.ZeroRecipient), "b_ts_delta", Z(b.TsDelta), "b_signer", N(b.Signer), "b_header", N(b.Header))
 }
 
@@ -719,19 +867,32 @@ func term(id uint64, in Input, obs Obs) string {
 	for _, c := range in.Cfgs {
 		cfgs = append(cfgs, Pair(N(c.Builder), Record("bc_cat", N(c.Cat%uint64(len(catNames))), "bc_offset", optZ(c.Offset), "bc_factor", optZ(c.Factor))))
 	}
-	relays := make([]string, 0, len(in.Relays))
-	for i, r := range in.Relays {
-		script := make([]string, 0, len(r.Script))
-		for k, s := range r.Script {
-			x := map[string]string{"err": "RErr", "nil": "RNil", "empty": "REmpty", "malformed": "RMalformed", "hang": "RHang"}[s.Kind]
+	kindOf := map[string]string{"full": "KFull", "nounblind": "KNoUnblind", "nobid": "KNoBid", "badaddr": "KBadAddr"}
+	respOf := map[string]string{"err": "RErr", "nil": "RNil", "empty": "REmpty", "malformed": "RMalformed", "hang": "RHang"}
+	relayTerm := func(i int, r *RelayIn, sc []RespIn, uidOf func(int, int) uint64) string {
+		script := make([]string, 0, len(sc))
+		for k, s := range sc {
+			x := respOf[s.Kind]
 			if s.Kind == "bid" {
-				x = App("RBid", bidTerm(i, k, s.Bid))
+				x = App("RBid", bidTermUID(uidOf(i, k), s.Bid))
 			}
 			script = append(script, Pair(Z(s.Lat), x))
 		}
-		kind := map[string]string{"full": "KFull", "nounblind": "KNoUnblind", "nobid": "KNoBid", "badaddr": "KBadAddr"}[r.Kind]
-		relays = append(relays, Record("r_idx", N(uint64(i)), "r_kind", kind, "r_min", bigN(r.Min), "r_cfg_key", optKey(r.CfgKey),
-			"r_adv_key", optKey(r.AdvKey), "r_grace", Z(r.Grace), "r_script", List(script)))
+		return Record("r_idx", N(uint64(i)), "r_kind", kindOf[r.Kind], "r_min", bigN(r.Min), "r_cfg_key", optKey(r.CfgKey),
+			"r_adv_key", optKey(r.AdvKey), "r_grace", Z(r.Grace), "r_script", List(script))
+	}
+	relays := make([]string, 0, len(in.Relays))
+	lateRelays := []string{}
+	for i := range in.Relays {
+		r := &in.Relays[i]
+		relays = append(relays, relayTerm(i, r, r.Script, uid))
+		if in.Late != nil && in.Mode != "strategy" {
+			var sc []RespIn
+			if i < len(in.Late.Scripts) {
+				sc = in.Late.Scripts[i]
+			}
+			lateRelays = append(lateRelays, relayTerm(i, r, sc, lateUID))
+		}
 	}
 	win := None()
 	if obs.Win != nil {
@@ -753,10 +914,23 @@ func term(id uint64, in Input, obs Obs) string {
 			dropped = append(dropped, "("+Z(c.T)+", "+N(uint64(c.Relay))+", "+N(uint64(c.Call))+")")
 		}
 	}
+	lateAt := make([]string, 0, len(obs.LateAt))
+	for _, t := range obs.LateAt {
+		lateAt = append(lateAt, Z(t))
+	}
+	lateServed := make([]string, 0, len(obs.LateServed))
+	for _, s := range obs.LateServed {
+		lateServed = append(lateServed, OptN(s))
+	}
+	lateReqs := make([]string, 0, len(obs.LateReqs))
+	for _, c := range obs.LateReqs {
+		lateReqs = append(lateReqs, "("+Z(c.T)+", "+N(uint64(c.Relay))+", "+N(uint64(c.Call))+")")
+	}
 	return Record("c_id", N(id), "c_strat", strat, "c_mode", mode, "c_cfgs", List(cfgs), "c_relays", List(relays),
 		"c_panic", Bool(obs.Panic), "c_has_results", Bool(obs.HasResults), "c_win", win,
 		"c_providers", nList(obs.Providers), "c_allp", nList(obs.AllP), "c_parts", List(parts),
-		"c_elapsed", Z(obs.Elapsed), "c_served", List(served), "c_calls", List(calls), "c_dropped", List(dropped), "c_stuck", Bool(obs.Stuck))
+		"c_elapsed", Z(obs.Elapsed), "c_served", List(served), "c_calls", List(calls), "c_dropped", List(dropped), "c_stuck", Bool(obs.Stuck),
+		"c_late_at", List(lateAt), "c_late_relays", List(lateRelays), "c_late_served", List(lateServed), "c_late_reqs", List(lateReqs))
 }
 
 // ---------------------------------------------------------------------------------------------
@@ -1291,7 +1465,105 @@ func gen(r *Rand, tier string) Input {
 			rel.Script[k].Bid = b
 		}
 	}
+	genLate(r, &in)
 	return in
+}
+
+// spoilAuction makes every bid of the auction unacceptable (one reason per bid): the auction ends
+// without a winner.
+func spoilAuction(r *Rand, in *Input) {
+	for i := range in.Relays {
+		rel := &in.Relays[i]
+		for k := range rel.Script {
+			sc := &rel.Script[k]
+			if sc.Kind != "bid" {
+				continue
+			}
+			cp := *sc.Bid
+			sc.Bid = &cp
+			switch r.Intn(7) {
+			case 0:
+				sc.Bid.TsDelta = pick(r, int64(1), -1, 12)
+			case 1:
+				sc.Bid.ZeroRecipient = true
+			case 2:
+				sc.Kind, sc.Bid = pick(r, "err", "nil", "empty", "hang", "malformed"), nil
+			case 3:
+				sc.Bid.Value = "0"
+			case 4:
+				if effKey(rel) == 0 {
+					rel.CfgKey = 2
+				}
+				sc.Bid.Signer = pick(r, uint64(0), 9, effKey(rel)%3+1)
+			case 5: // after the cut-off
+				sc.Lat += 16 * (in.cutoff()/16 + 2)
+			default: // nothing at all: the relay's minimum is above everything it offers
+				rel.Min = scaled(1, 30)
+			}
+		}
+	}
+}
+
+// genLate: what happens after the auction on the same service (modes auction and query): the beacon
+// node asks for the bid of the auction's key once to three times, at once or (much) later, and by then
+// most relays have a bid worth more than anything offered during the auction; in two cases out of five
+// the auction itself is made to end without a winner.
+func genLate(r *Rand, in *Input) {
+	in.Late = nil
+	if in.Mode == "strategy" || !r.Chance(75, 100) {
+		return
+	}
+	lt := &LateIn{Queries: pick(r, 1, 1, 2, 3), Wait: pick(r, int64(0), 0, 1, 40, 500, 4000, 12000, 400000),
+		Between: pick(r, int64(0), 1, 250, 12000)}
+	if len(in.Relays) > 0 && r.Chance(40, 100) {
+		spoilAuction(r, in)
+		in.Tags = append(in.Tags, "late:auction-made-to-end-without-winner")
+	}
+	if len(in.Relays) > 0 && r.Chance(25, 100) {
+		lt.Other = pick(r, "parent", "parent+slot", "parent+proposer")
+	}
+	// the largest value around, the builders and headers seen
+	top := big.NewInt(100)
+	builders := []uint64{1}
+	headers := []uint64{95}
+	for i := range in.Relays {
+		for k := range in.Relays[i].Script {
+			if b := in.Relays[i].Script[k].Bid; b != nil {
+				if v := bigOf(b.Value); v.Cmp(top) > 0 {
+					top = v
+				}
+				builders = append(builders, b.Builder)
+				headers = append(headers, b.Header)
+			}
+		}
+		if m := bigOf(in.Relays[i].Min); m.Cmp(top) > 0 && in.Relays[i].Min != scaled(1, 30) {
+			top = m
+		}
+	}
+	for i := range in.Relays {
+		rel := &in.Relays[i]
+		var sc []RespIn
+		n := r.Range(1, 3)
+		for k := 0; k < n; k++ {
+			x := RespIn{Lat: 16*int64(r.Range(1, 5)) + int64(i), Kind: "bid"}
+			switch v := r.Intn(100); {
+			case v < 8:
+				x.Kind = pick(r, "err", "nil", "hang", "empty")
+			case v < 16 && k < len(rel.Script): // what it said during the auction
+				x.Kind, x.Bid = rel.Script[k].Kind, rel.Script[k].Bid
+			}
+			if x.Kind == "bid" && x.Bid == nil {
+				value := new(big.Int).Add(new(big.Int).Mul(top, big.NewInt(int64(r.Range(2, 4)))), big.NewInt(int64(r.Range(0, 9))))
+				x.Bid = &BidIn{Value: value.String(), Builder: pick(r, builders...), Header: pick(r, headers...), Signer: effKey(rel)}
+				if x.Bid.Signer == 0 {
+					x.Bid.Signer = 1
+				}
+			}
+			sc = append(sc, x)
+		}
+		lt.Scripts = append(lt.Scripts, sc)
+	}
+	in.Late = lt
 }
 
 // ---------------------------------------------------------------------------------------------
@@ -1379,6 +1651,9 @@ func genSeq(r *Rand, tier string) []Input {
 			e := rounds[r.Intn(len(rounds))]
 			nx.SlotOff, nx.Parent, nx.Proposer = e.SlotOff, e.Parent, e.Proposer
 		}
+		if nx.Mode != "strategy" && nx.Late == nil || nx.Mode == "strategy" {
+			genLate(r, &nx)
+		}
 		k := key{nx.SlotOff, nx.Parent, nx.Proposer}
 		if (nx.Mode == "query" || len(nx.Relays) == 0) && used[k] { // an auction without relays caches nothing: the earlier entry stays
 
@@ -1398,7 +1673,8 @@ func TestC09(t *testing.T) {
 	zerologger.Logger = zerolog.New(io.Discard)
 	col := NewCollector("C09", "Check.C09",
 		"one relay auction per case (0-6 relays; best or deadline strategy; called directly, through AuctionBlock+BuilderBid, or through BuilderBid on an empty cache; "+
-			"alone on a fresh strategy/blockrelay instance or as the 2nd-4th auction on a used one); "+
+			"alone on a fresh strategy/blockrelay instance or as the 2nd-4th auction on a used one; "+
+			"three in four of the auctions run through the blockrelay service are followed by 1-3 later BuilderBid calls for the same key while the relays have other bids); "+
 			"non-trivial = at least one scripted bid reached vouch before the cut-off (so that eligibility and scoring were decided); distinct by full input text")
 	n := EnvInt("VERIF_N", 600)
 	tier := "quick"
@@ -1481,6 +1757,36 @@ func emit(col *Collector, in Input, obs Obs, round int) {
 		if obs.Calls[i].T == obs.Calls[i-1].T && obs.Calls[i].T < cut {
 			tg = append(tg, "tied-arrivals")
 			break
+		}
+	}
+	if in.Late != nil && in.Mode != "strategy" {
+		tg = append(tg, "late-queries")
+		col.Count(fmt.Sprintf("late:queries-%d", in.Late.Queries))
+		if in.Late.Other != "" {
+			tg = append(tg, "late:other-key-auction-first")
+			col.Count("late:other-key-auction-first")
+		}
+		noWinner := obs.Win == nil && (len(obs.Served) == 0 || obs.Served[0] == nil)
+		lateBid := false
+		for i := range in.Late.Scripts {
+			for k := range in.Late.Scripts[i] {
+				if x := in.Late.Scripts[i][k]; i < len(in.Relays) && x.Kind == "bid" && eligibleIn(&in.Relays[i], x.Bid) && scoreIn(&in, x.Bid).Sign() != 0 {
+					lateBid = true
+				}
+			}
+		}
+		switch {
+		case noWinner && lateBid:
+			col.Count("late:no-winner-then-an-eligible-bid-appears")
+		case noWinner:
+			col.Count("late:no-winner")
+		case lateBid:
+			col.Count("late:winner-then-other-eligible-bids-appear")
+		default:
+			col.Count("late:winner")
+		}
+		if len(obs.LateReqs) > 0 {
+			col.Count("late:relays-asked")
 		}
 	}
 	col.Count(fmt.Sprintf("relays:%d", len(in.Relays)))
